@@ -345,6 +345,12 @@ def cases(draw, n_max=10):
     bound = draw(st.sampled_from([False] * 3 + [True] * 2))
     g = history.graph_of(spec, ghosts=False)
     anc = gm.ancestry(g, tip)
+    # the revisions whose tags depend on what is re-recorded: merged into the
+    # tip, but not on its left-hand history
+    side = sorted(anc - set(gm.lefthand(g, tip)))
+    if side and names and draw(st.booleans()):
+        for t in names[:draw(st.sampled_from([1, 2]))]:
+            tags[t] = draw(st.sampled_from(side))
     # pending merges: heads among the revisions not yet merged into the tip
     outside = [r for r in ids if r not in anc]
     pending = []
@@ -379,5 +385,5 @@ def cases(draw, n_max=10):
 def kinds(tier):
     return [
         Kind("uncommit", run, strategy=cases(n_max=9 if tier == "quick" else 12),
-             examples={"quick": 320, "thorough": 10000}),
+             examples={"quick": 560, "thorough": 10000}),
     ]
